@@ -443,8 +443,12 @@ def replay(cfg, cex):
                 acc = ha.HttpAccessor(url)
                 if h == "plain":
                     for cc, pl in zip(CHUNKS, pls):
-                        if acc.fetch_chunk("k0", cc) != pl:
-                            return True, f"chunk {cc} over HTTP differs from the stored bytes"
+                        try:
+                            got = acc.fetch_chunk("k0", cc)
+                        except Exception as e:
+                            return True, f"chunk {cc} ({pl[:8].hex()}...) served correctly but fetch_chunk raised {type(e).__name__}: {e}"
+                        if got != pl:
+                            return True, f"chunk {cc} over HTTP ({got[:16]!r}, {len(got)} bytes) differs from the stored bytes ({pl[:16]!r}, {len(pl)} bytes)"
                     return acc.fetch_file("info") != b'{"scales": []}', "info over HTTP"
                 name, kind, persistent = inp["case"]
                 H.fault = (0, kind, persistent)
